@@ -536,6 +536,23 @@ def _loop_guarded(cfg, f, lp, ce=None):
                 top = lp.test.values if isinstance(lp.test, ast.BoolOp) and isinstance(lp.test.op, ast.And) else [lp.test]
                 if any(c is t for t in top):
                     return True, "loop continues only while the current node's name is in a constant set without html"
+    # sentinel by evaluation: with the root html element as the current node (name html, default namespace) the guard is false,
+    # whatever way it is written (De Morgan, `not (.. and ..)`, aliases)
+    if ce is not None:
+        from ..partition import MiniInterp, Opaque
+
+        def root_hook(node, local):
+            t = norm(node)
+            if t.endswith("openElements[-1].name") or (isinstance(node, ast.Name) and node.id in cur_alias):
+                return "html"
+            if t.endswith("openElements[-1].namespace") or t.endswith(".defaultNamespace"):
+                return "<default namespace>"
+            return NotImplemented
+        try:
+            if MiniInterp(ce, f.module, expr_hook=root_hook).eval_guard(lp.test, {"self": Opaque("self")}) is False:
+                return True, "the loop guard is false when the current node is the root html element (evaluated)"
+        except Exception:      # noqa: BLE001
+            pass
     # sentinel in the loop guard: compares the current node's name with a set containing 'html'
     if "'html'" in test and ("not in" in test or "!=" in test):
         return True, "html sentinel in the loop guard"
